@@ -3,7 +3,7 @@
  "name": "p34_check_root",
  "props": ["C02", "C01", "C05"],
  "level": "P",
- "tier": "wip",
+ "tier": "quick",
  "harness": "h_check_root",
  "includes": ["e2fsck", "lib/support"],
  "unwind": 10,
@@ -22,7 +22,7 @@
  "name": "p34_fix_dotdot_proc",
  "props": ["C01", "C05"],
  "level": "U",
- "tier": "wip",
+ "tier": "quick",
  "harness": "h_fix_dotdot_proc",
  "replace": ["e2fsck_adjust_inode_count"],
  "includes": ["e2fsck", "lib/support"],
@@ -41,7 +41,7 @@
  "name": "p34_adjust_inode_count",
  "props": ["C01", "C05"],
  "level": "U",
- "tier": "wip",
+ "tier": "quick",
  "harness": "h_adjust",
  "includes": ["e2fsck", "lib/support"],
  "unwind": 10,
@@ -58,7 +58,7 @@
  "name": "p34_reconnect_file",
  "props": ["C01", "C02"],
  "level": "P",
- "tier": "wip",
+ "tier": "quick",
  "harness": "h_reconnect",
  "replace": ["e2fsck_adjust_inode_count", "e2fsck_get_lost_and_found", "e2fsck_expand_directory"],
  "includes": ["e2fsck", "lib/support"],
@@ -79,7 +79,7 @@
  "name": "p34_check_directory_walk",
  "props": ["C02", "C01", "C05"],
  "level": "U/iter",
- "tier": "wip",
+ "tier": "quick",
  "harness": "h_check_directory",
  "loop_contracts": true,
  "replace": ["e2fsck_reconnect_file", "fix_dotdot"],
@@ -101,7 +101,7 @@
  "name": "p34_check_directory_cycle",
  "props": ["C02"],
  "level": "U/iter",
- "tier": "wip",
+ "tier": "quick",
  "harness": "h_check_directory_cycle",
  "loop_contracts": true,
  "replace": ["e2fsck_reconnect_file", "fix_dotdot"],
